@@ -5,11 +5,13 @@ import Driver.C12Mon
 import Driver.Flow
 import Driver.C14
 import Driver.C05Mon
+import Driver.C08
 open Kv
 
 structure DState where
   c04 : Drv.Flow.FullSt := {}
   c07 : Drv.Flow.FullSt := {}
+  c08 : Drv.C08.FullSt := {}
   deriving Inhabited
 
 /-- full driver: regenerated model + monitor -/
@@ -22,6 +24,7 @@ def dispatch (st : DState) (prop : String) (l : Line) : DState × String :=
   | "C07" => let (s, r) := Drv.Flow.step "C07" st.c07 l; ({ st with c07 := s }, r)
   | "C14" => (st, Drv.C14.step l)
   | "C05" => (st, Drv.C05.step l)
+  | "C08" => let (s, r) := Drv.C08.step st.c08 l; ({ st with c08 := s }, r)
   | _ => (st, "bad-op")
 
 def main : IO Unit := driverMain dispatch {}
